@@ -16,8 +16,8 @@ Every numpy step of the code is one definition here:
   array is ascending, this is numpy's documented result)
 * slicing `data[a:e]`          → `slice`
 
-Import-free and executable.  Unbounded integers: `np.diff(res_id)` is assumed not to wrap
-(|res_id| < 2⁶²).
+Import-free and executable.  Residue IDs are unbounded integers: the code compares them directly
+(`<`, `!=`), no arithmetic is done on them (since fix a647a870; `np.diff(res_id) < 0` wrapped).
 -/
 namespace BiotiteModel.C17
 
@@ -53,9 +53,9 @@ def residueMask (xs : List Atom) : List Bool :=
 def residueStarts (xs : List Atom) (addStop : Bool) : List Nat :=
   startsOf xs.length (residueMask xs) addStop
 
-/-- `get_chain_starts`: `np.diff(res_id) < 0` OR chain id change. -/
+/-- `get_chain_starts`: `res_id[1:] < res_id[:-1]` OR chain id change. -/
 def chainMask (xs : List Atom) : List Bool :=
-  orMask (changeMask (fun a c => decide (c.res - a.res < 0)) xs)
+  orMask (changeMask (fun a c => decide (c.res < a.res)) xs)
          (changeMask (fun a c => c.chain != a.chain) xs)
 
 def chainStarts (xs : List Atom) (addStop : Bool) : List Nat :=
